@@ -679,12 +679,9 @@ class SequencerSuite(Suite):
     name = 'sequencer'
     prelude = 'From Sup Require Import Sequencer.\nOpen Scope Z_scope.'
     case_type = 'case'
-    evals = {'mismatches': 'mismatches',
-             'c03': 'spec_violations_c03', 'c09': 'spec_violations_c09', 'c10': 'spec_violations_c10',
-             'k03': 'known_noresource_c03', 'k09': 'known_noresource_c09', 'k10': 'known_noresource_c10',
-             'kto': 'known_timeout_strategy', 'kke': 'known_keyerror', 'crash': 'other_crashes'}
+    evals = {'mismatches': 'mismatches'}
     shard_size = 60
-    quick_cases = 600
+    quick_cases = 1500
     thorough_cases = 12000
 
     def generate(self, rng, tier):
@@ -771,3 +768,25 @@ class SequencerSuite(Suite):
                         outs[key] = outs.get(key, 0) + 1
         return {'op_kinds': kinds, 'history_lengths': lens, 'crashes': crashes, 'outputs': outs,
                 'apps': {str(n): sum(1 for i in inputs if len(i['cf']['apps']) == n) for n in range(1, 5)}}
+
+
+class SequencerC03(SequencerSuite):
+    name = 'sequencer'
+    evals = {'mismatches': 'mismatches', 'spec_violations': 'failing_c03',
+             'known:c03-noresource-reentrancy': 'known_noresource_c03',
+             'known:c03-timeout-strategy': 'known_timeout_strategy',
+             'known:reentrant-next-keyerror': 'known_keyerror'}
+
+
+class SequencerC09(SequencerSuite):
+    name = 'sequencer'
+    evals = {'mismatches': 'mismatches', 'spec_violations': 'failing_c09',
+             'known:c03-noresource-reentrancy': 'known_noresource_c09',
+             'known:reentrant-next-keyerror': 'known_keyerror'}
+
+
+class SequencerC10(SequencerSuite):
+    name = 'sequencer'
+    evals = {'mismatches': 'mismatches', 'spec_violations': 'failing_c10',
+             'known:c03-noresource-reentrancy': 'known_noresource_c10',
+             'known:reentrant-next-keyerror': 'known_keyerror'}
